@@ -88,6 +88,9 @@ func newEventFromUntrustedJSONV3(eventJSON []byte, roomVersion IRoomVersion) (PD
 		// the JSON text "null" unmarshals into a nil pointer
 		return nil, fmt.Errorf("gomatrixserverlib NewEventFromUntrustedJSON: event is not a JSON object")
 	}
+	// In this event format the event ID is the reference hash of the event: it is never read
+	// from the JSON (a member "event_id", under any spelling encoding/json accepts).
+	res.EventIDRaw = ""
 
 	// v3 events have room IDs as the create event ID.
 	// TODO: allow validation to be enhanced/relaxed to help users like Complement.
@@ -145,6 +148,9 @@ func newEventFromTrustedJSONV3(eventJSON []byte, redacted bool, roomVersion IRoo
 	if err := json.Unmarshal(eventJSON, &res); err != nil {
 		return nil, err
 	}
+	// In this event format the event ID is the reference hash of the event: it is never read
+	// from the JSON (a member "event_id", under any spelling encoding/json accepts).
+	res.EventIDRaw = ""
 
 	// v3 events have room IDs as the create event ID.
 	// TODO: allow validation to be enhanced/relaxed to help users like Complement.
